@@ -66,7 +66,7 @@ void explore13(Options const& o, std::vector<Shim*> const& shims, std::vector<Sh
   i64 dense_big = th ? (1ll << 33) : (1ll << 26), dense_small = th ? (1ll << 28) : (1ll << 22);
   i64 MS = 11863283;    // m^2 < 2^47
   rec.note("alphabet", "both algorithms called directly and sqrt() itself: every raw x in [0, 2^" + std::to_string(th ? 33 : 26) + ") on the first gcc and clang configuration and [0, 2^" + std::to_string(th ? 28 : 22)
-           + ") elsewhere; S (|S|=" + std::to_string(S.size()) + ") up to 2^47 with monotonicity over the sorted set; ALL " + std::to_string(MS) + " exactly representable squares n*n < 2^31; " + std::to_string(Sneg.size()) + " negative arguments");
+           + ") elsewhere; S (|S|=" + std::to_string(S.size()) + ") up to 2^47 with monotonicity over the sorted set; ALL " + std::to_string(MS) + " exactly representable squares n*n < 2^31; " + std::to_string(Sneg.size()) + " negative arguments; step points of the root (smallest x with x*2^16 >= k^2, and x-1) for " + std::to_string(th ? 32768 : 2048) + " consecutive k at the bottom, middle and top of every binade of k up to floor(sqrt(2^63))");
   for( size_t ci = 0; ci < shims.size(); ++ci )
     {
     Shim* s = shims[ci];
@@ -148,6 +148,29 @@ void explore13(Options const& o, std::vector<Shim*> const& shims, std::vector<Sh
           if( i > 0 && out[i] < out[i - 1] ) { i64 x = in[i], xp = in[i - 1], p = out[i - 1], g = out[i]; lv.hit(c.c_mono[oi], ob | (4ull << 48) | (blk << 20) | i, [=]{ return ex1(s, SQ_N[oi], "monotone, near a perfect square", {{"x",to_s(x)},{"earlier_x",to_s(xp)}}, ">= " + to_s(p), to_s(g), "mono", {to_s(oi), to_s(x), to_s(xp)}); }); }
           }
         rec.add_states(in.size(), in.size(), 2 * in.size());
+        });
+      }
+      // step points of the result: for consecutive k in windows at the bottom, middle and top of every binade of the root, the smallest
+      // argument x with x*2^16 >= k^2 and its predecessor - the two arguments between which the correct root passes k. A root that is
+      // rounded or corrected in the wrong direction is wrong exactly there, and only when x*2^16 - k^2 happens to be small
+      {
+      const i64 W = th ? (1 << 15) : (1 << 11); const i64 KMAX = 3037000499ll;
+      std::vector<i64> k0s; for( int e = 9; e <= 31; ++e ) { k0s.push_back(1ll << e); k0s.push_back(3ll << (e - 1)); k0s.push_back((1ll << (e + 1)) - W); }
+      k0s.push_back(KMAX - W + 1);
+      parallel_blocks(k0s.size(), o.threads, [&](size_t bi, int) {
+        LocalViol lv(rec); std::vector<i64> in, out;
+        for( i64 k = std::max<i64>(2, k0s[bi]); k < k0s[bi] + W && k <= KMAX; ++k )
+          { i128 k2 = static_cast<i128>(k) * k; i64 x = static_cast<i64>((k2 + 65535) >> 16); if( x < LIM47 ) in.push_back(x); if( x - 1 > 0 && x - 1 < LIM47 ) in.push_back(x - 1); }
+        std::sort(in.begin(), in.end()); in.erase(std::unique(in.begin(), in.end()), in.end());
+        out.resize(in.size());
+        if( !in.empty() ) s->fm_un_batch(SQ_OPS[oi], in.data(), in.size(), out.data());
+        for( size_t i = 0; i < in.size(); ++i )
+          {
+          u64 ord = ob | (10ull << 48) | (bi << 20) | i;
+          c.val(s, oi, in[i], out[i], ord, lv);
+          if( i > 0 && out[i] < out[i - 1] ) { i64 x = in[i], xp = in[i - 1], p = out[i - 1], g = out[i]; lv.hit(c.c_mono[oi], ord, [=]{ return ex1(s, SQ_N[oi], "monotone, at a step of the root", {{"x",to_s(x)},{"earlier_x",to_s(xp)}}, ">= " + to_s(p), to_s(g), "mono", {to_s(oi), to_s(x), to_s(xp)}); }); }
+          }
+        rec.add_states(in.size(), in.size(), 2 * in.size()); rec.count("step_point_arguments", in.size());
         });
       }
       // all exactly representable squares
